@@ -265,6 +265,57 @@ func initSpendKinds() {
 		return cat([]byte{0}, push(s0), push(s1)), err
 	})
 
+	// ---- two co-signers of the 2-of-3 multisig, each with its own key store and
+	// its own hash type (the second one's differs in SIGHASH_ANYONECANPAY): the
+	// second SignTxOutput call merges the first one's partial script
+	// (mergeScripts / mergeMultiSig), which re-derives each signature's digest
+	// from the hash type byte it carries
+	oneKey := func(k *keyT) txscript.KeyDB {
+		return txscript.KeyClosure(func(a address.Address) (*btcec.PrivateKey, bool, error) {
+			for _, compressed := range []bool{true, false} {
+				h := k.h160C
+				if !compressed {
+					h = k.h160U
+				}
+				if o, _ := address.NewAddressPubKeyHash(h, params); o != nil && o.EncodeAddress() == a.EncodeAddress() {
+					return k.priv, compressed, nil
+				}
+			}
+			return nil, false, errors.New("no key")
+		})
+	}
+	for _, w := range []struct {
+		name string
+		spk  []byte
+	}{{"multisig-2of3-cosigned", ms23}, {"p2sh-multisig-2of3-cosigned", p2sh(ms23)}} {
+		w := w
+		for _, order := range [][2]*keyT{{k0, k1}, {k2, k0}} {
+			order := order
+			name := w.name
+			if order[0] == k2 {
+				name += "-k2-first"
+			}
+			spendKinds = append(spendKinds, &spendKind{
+				name: name, pkScript: w.spk,
+				sign: func(c *spendCtx, ht uint32) error {
+					first, err := txscript.SignTxOutput(params, c.tx, c.idx, w.spk, txscript.SigHashType(ht), oneKey(order[0]), scriptDB, nil)
+					if err != nil {
+						return err
+					}
+					second, err := txscript.SignTxOutput(params, c.tx, c.idx, w.spk, txscript.SigHashType(ht^0x80), oneKey(order[1]), scriptDB, first)
+					if err != nil {
+						return err
+					}
+					c.tx.TxIn[c.idx].SignatureScript = second
+					return nil
+				},
+				ref: func(c *spendCtx, ht uint32) []string {
+					return []string{dstr(refsighash.Legacy(ms23, ht, c.tx, c.idx), nil), dstr(refsighash.Legacy(ms23, ht^0x80, c.tx, c.idx), nil)}
+				},
+			})
+		}
+	}
+
 	// ---- legacy script with an executed OP_CODESEPARATOR (RawTxInSignature)
 	csScript := cat(push(k0.pubC), []byte{opCheckSigVer, opCodeSep}, push(k1.pubC), []byte{opCheckSig})
 	csSuffix := cat(push(k1.pubC), []byte{opCheckSig})
